@@ -11,16 +11,20 @@ package client
 //@   invariant#1 0 <= $i && $i <= len(data) && 0 <= start && start <= $i && len(result) >= 0
 //@   decreases#1 len(data) - $i
 
+// tilePath renders the offset exactly as the reference tlog.Tile.Path renders Tile.N (both are proved equal to
+// the same recursive spec function pathAcc; see /verif/contracts/75_sumdb.spec).
 //@ func (*SumDBClient).tilePath
 //@   returns (s)
-//@   ensures[C19.t] true
-//@   invariant#1 true
+//@   ensures[C18.tp,C19.t] s == pathAcc(offset, fmt_03d(offset % 1000))
+//@   invariant#1 pathAcc(offset, nStr) == pathAcc(old(offset), fmt_03d(old(offset) % 1000))
 //@   decreases#1 offset
 
 //@ func (*SumDBClient).TileData
 //@   returns (b, err)
 //@   requires c != nil && c.fetcher != nil
-//@   ensures[C19.t] true
+//@   modifies n_gd, gd_paths
+//@   // one request, for "/" + the reference path of Tile{H: height, L: level, N: offset, W: partial or 2^H}
+//@   ensures[C18.td,C19.t] n_gd == old(n_gd) + 1 && gd_paths == old(gd_paths)[old(n_gd) := "/tile/" ++ fmt_d(c.height) ++ "/" ++ fmt_d(level) ++ "/" ++ pathAcc(offset, fmt_03d(offset % 1000)) ++ (partial > 0 ? ".p/" ++ fmt_d(partial) : "")]
 
 //@ func (*SumDBClient).ParseCheckpointNote
 //@   returns (cp, err)
@@ -30,9 +34,11 @@ package client
 //@ func (*SumDBClient).FullLeavesAtOffset
 //@   returns (r, err)
 //@   requires c != nil && c.fetcher != nil
-//@   ensures[C19.t] true
+//@   modifies n_gd, gd_paths
+//@   ensures[C18.fl,C19.t] n_gd == old(n_gd) + 1 && gd_paths[old(n_gd)] == "/tile/" ++ fmt_d(c.height) ++ "/data/" ++ pathAcc(offset, fmt_03d(offset % 1000))
 
 //@ func (*SumDBClient).PartialLeavesAtOffset
 //@   returns (r, err)
 //@   requires c != nil && c.fetcher != nil
-//@   ensures[C19.t] true
+//@   modifies n_gd, gd_paths
+//@   ensures[C18.pl,C19.t] n_gd == old(n_gd) + 1 && gd_paths[old(n_gd)] == "/tile/" ++ fmt_d(c.height) ++ "/data/" ++ pathAcc(offset, fmt_03d(offset % 1000)) ++ ".p/" ++ fmt_d(count)
